@@ -24,7 +24,7 @@ META = dict(
           "mutation table (plain add_row and the docstring recipe mutations.append(mutation.replace(...)) + sort on "
           "the tables of the tree sequence itself, also with a JSON mutation metadata schema). A case is distinct by "
           "its tree (row tuples / enumeration index)."),
-    REQUIRED=["oracle:call-after-refused-call", "oracle:reproduce", "oracle:optimum", "oracle:parents", "oracle:unary-chain",
+    REQUIRED=["oracle:same-question-after-move", "oracle:call-after-refused-call", "oracle:reproduce", "oracle:optimum", "oracle:parents", "oracle:unary-chain",
               "oracle:fixed-ancestral-state", "oracle:must-raise", "oracle:dp-vs-bruteforce",
               "oracle:loads-as-mutation-table", "exhaustive-trees", "oracle:ll-direct", "oracle:docstring-route",
               "family:variants", "family:entry", "family:huge-fanout", "family:deep"],
